@@ -296,8 +296,7 @@ Print Assumptions C06_map_forest_undo_k_blocks.
     mirror without error; the final state shows, for the forest obtained from the blocks that were NOT
     undone, the reference roots, leaf count, positions and canonical proofs - and it is observationally
     equal to the state reached by the clean history that never applied the undone blocks.  (Partial
-    forests: the same theorem is proved under the explicit premise [undo_tidy] - "Undo leaves nothing
-    superfluous stored" - which is validated by computation and by the correspondence run only.) *)
+    forests: theorems at the end of this file.) *)
 From Utreexo Require Import Proofs.MapMutUndo3.
 
 Theorem C06_map_forest_mixed_histories :
@@ -330,3 +329,38 @@ Theorem C06_map_forest_as_if_never_applied :
                   Prove HO m hs = Prove HO m' hs).
 Proof. exact full_history_as_if. Qed.
 Print Assumptions C06_map_forest_as_if_never_applied.
+
+(** ** The same for PARTIAL map forests (Proofs/MapMutUndo4.v proves that Undo leaves nothing
+    superfluous stored, [undo_tidy_holds], so the invariant survives an Undo there too). *)
+From Utreexo Require Import Proofs.MapMutUndo4.
+
+Theorem C06_partial_map_forest_mixed_histories :
+  forall (H : Type) (HO : ops H), ops_ok HO ->
+  (forall x y, op_eqb HO (op_hash2 HO x y) (op_empty HO) = false) ->
+  forall (T : N) (l : list (sop H)),
+    T <= 63 -> svalid H HO false (st0 H) l ->
+    exists m,
+      srun_all H HO false (st0 H) (m0 H false T) l = Some m /\
+      (let sF := fst (fst (sfinal H HO false (st0 H) l)) in
+       let RF := snd (fst (sfinal H HO false (st0 H) l)) in
+       getRoots HO m = roots HO sF /\ ms_n m = num_leaves sF /\
+       (forall hs, (forall h, In h hs -> In h RF) -> NoDup hs ->
+                   Prove HO m hs = exp_prove HO (mk_ctx HO sF) hs) /\
+       (forall h, GetLeafPosition HO m h = exp_leafpos HO (mk_ctx HO sF) (memH HO h RF) h)).
+Proof. exact partial_history_observables. Qed.
+Print Assumptions C06_partial_map_forest_mixed_histories.
+
+Theorem C06_partial_map_forest_as_if_never_applied :
+  forall (H : Type) (HO : ops H), ops_ok HO ->
+  (forall x y, op_eqb HO (op_hash2 HO x y) (op_empty HO) = false) ->
+  forall (T : N) (l : list (sop H)),
+    T <= 63 -> svalid H HO false (st0 H) l ->
+    exists m m',
+      srun_all H HO false (st0 H) (m0 H false T) l = Some m /\
+      MapMutUnify2.hrun2 H HO false ([], []) (m0 H false T) (as_bops H (rev (net H l []))) = Some m' /\
+      getRoots HO m = getRoots HO m' /\ ms_n m = ms_n m' /\
+      (forall h, GetLeafPosition HO m h = GetLeafPosition HO m' h) /\
+      (forall hs, (forall h, In h hs -> exists p, GetLeafPosition HO m h = Some p) -> NoDup hs ->
+                  Prove HO m hs = Prove HO m' hs).
+Proof. exact partial_history_as_if. Qed.
+Print Assumptions C06_partial_map_forest_as_if_never_applied.
